@@ -10,8 +10,9 @@ Inductive elem :=
 | EHeading (level : nat) (t : text)
 | EBlank
 | EForeign (n : nat) (lang : text) (body : list text) (tail : text)
-| EScrut (n : nat) (cfg : option text) (comments : list text) (cmd : option (text * list text * list bline)) (tail : text).
-(* [tail]: what follows the N backticks on the closing line -- more backticks (a longer fence), blanks, any text:
+| EScrut (n : nat) (cfg : option text) (hs : text) (comments : list text) (cmd : option (text * list text * list bline)) (tail : text).
+(* [hs]: blanks after the language or the inline configuration on the opening line (ignored by the reader);
+   [tail]: what follows the N backticks on the closing line -- more backticks (a longer fence), blanks, any text:
    a block ends at the first line that STARTS WITH its N backticks *)
 
 Definition fence (n : nat) : text := repeat BT n.
@@ -24,8 +25,8 @@ Definition render_elem (e : elem) : list text :=
   | EHeading k t => [hashes k ++ [32] ++ t]
   | EBlank => [[]]
   | EForeign n lang body tail => [fence n ++ lang] ++ body ++ [fence n ++ tail]
-  | EScrut n cfg comments cmd tail =>
-    [fence n ++ SCRUT ++ match cfg with Some c => [32; 123] ++ c ++ [125] | None => [] end]
+  | EScrut n cfg hs comments cmd tail =>
+    [fence n ++ SCRUT ++ match cfg with Some c => [32; 123] ++ c ++ [125] | None => [] end ++ hs]
     ++ comments
     ++ match cmd with
        | Some (c, conts, body) => [P_DOLLAR ++ c] ++ map (fun x => P_GT ++ x) conts ++ map render_body body
@@ -55,8 +56,8 @@ Fixpoint md_tests_from (d : list elem) (line : nat) (st : tstate) : list mtest :
     | EProse l => md_tests_from r next (title_line st l)
     | EHeading k t => md_tests_from r next (title_line st (hashes k ++ [32] ++ t))
     | EBlank => md_tests_from r next (title_line st [])
-    | EScrut n cfg comments None _ => md_tests_from r next (mkTS [] (ts_title st))
-    | EScrut n cfg comments (Some (c, conts, body)) _ =>
+    | EScrut n cfg _ comments None _ => md_tests_from r next (mkTS [] (ts_title st))
+    | EScrut n cfg _ comments (Some (c, conts, body)) _ =>
       mkMT (mkPT (match ts_title st with Some t => t | None => [] end) (c :: conts) (exps_of body) (code_of body)
                  (S (line + 1 + length comments)))
            cfg
@@ -90,7 +91,7 @@ Definition elem_ok (pe_ok : text -> bool) (front_ok : list text -> bool) (cfg_ok
   | EHeading k t => Nat.ltb 0 k && no_nl t && match t with [] => false | _ => true end
   | EBlank => true
   | EForeign n lang body tail => Nat.leb 3 n && lang_ok lang && forallb (fun l => negb (closes n l) && no_nl l) body && no_nl tail
-  | EScrut n cfg comments cmd tail =>
+  | EScrut n cfg hs comments cmd tail =>
     Nat.leb 3 n && no_nl tail
     && match cfg with Some c => cfg_text_ok cfg_ok c | None => true end
     && forallb (fun l => is_comment l && no_nl l) comments
@@ -98,6 +99,7 @@ Definition elem_ok (pe_ok : text -> bool) (front_ok : list text -> bool) (cfg_ok
        | Some (c, conts, body) => no_nl c && forallb no_nl conts && md_body_ok pe_ok n body
        | None => true
        end
+    && (forallb is_white hs && no_nl hs)
   end.
 (* [first]: nothing but blank lines (and front-matter) so far, so `---` would still open a front-matter *)
 Fixpoint wf_md_from (pe_ok : text -> bool) (front_ok : list text -> bool) (cfg_ok : text -> bool) (first : bool) (d : list elem) : bool :=
